@@ -37,6 +37,37 @@ def scenarios(rng, tier):
                 st = [mac(1000), twin(own, p_), twin(own, (p_ + 1) % 6, 0x01)] + ([own] if withown else [])
                 if tblcase == 'same': s.op('st_add 0', hx(twin(M, p_)), 5, 6)        # a session of a mapper one octet away from this one
                 s.classify(0, discover(M, gen=5, seq=6, stations=st), fill='00')
+    # histories: sessions of a few mappers are added, looked up (by classifying their Discovers), acknowledged at some list
+    # index, removed, expired by the tick while others stay; every classification is judged against the table of that moment.
+    # In half of them the own address is 10:10:10:10:10:10 and short frames leave it in the stale bytes behind the frame.
+    for k in range(40 if tier == 'quick' else 1000):
+        start('hist_%d' % k); stale = k % 2 == 1
+        me = bytes([0x10] * 6) if stale else own
+        if stale: s.lines.append('cfg 0 mac=%s' % me.hex())
+        mp = [mac(60 + i) for i in range(3)]; s.op('adv', 5000); now_ = 5000
+        for i in range(rng.choice([12, 30])):
+            r = rng.random(); Mx = rng.choice(mp); g = rng.choice([1, 2]); q = rng.choice([5, 6, 7])
+            if r < 0.25: s.op('st_add 0', hx(Mx), g, q)
+            elif r < 0.32: s.op('st_remove 0', hx(Mx), g)
+            elif r < 0.45: s.op('adv', rng.choice([1000, 20000, 30500, 61000])); s.op('tick 0')
+            else:
+                n_ = rng.choice([0, 1, 2, 3, 5]); pos = rng.choice([None] + list(range(n_))) if n_ else None
+                stl = [mac(3000 + j) for j in range(n_)]
+                if pos is not None: stl[pos] = me
+                # sometimes the list is cut short while the count still says n (the own address then lies beyond the frame's end)
+                fr = discover(Mx, gen=g, seq=q, stations=stl)
+                if rng.random() < 0.3 and n_ > 1: fr = discover(Mx, gen=g, seq=q, stations=stl[:rng.randrange(n_)], count=rng.choice([n_, 1, 0]))
+                # ... or the frame is longer than its count says (padding, a trailer): entries behind the count are not the list
+                elif rng.random() < 0.35 and pos is not None and pos >= 1: fr = discover(Mx, gen=g, seq=q, stations=stl, count=pos)
+                s.classify(0, fr, fill='10' if stale else rng.choice(['00', 'ff']))
+    # acknowledged at index p before; now the count ends before p while the frame still holds bytes there (padding / trailer)
+    for p_ in (1, 2, 5):
+        for known in (True, False):
+            start('behindcount_p%d_%d' % (p_, known)); stl = [mac(3100 + j) for j in range(p_ + 2)]; stl[p_] = own
+            if known: s.op('st_add 0', hx(M), 9, 4)
+            s.classify(0, discover(M, gen=9, seq=4, stations=stl), fill='00')
+            for cnt in (p_, 1, p_ + 1):
+                s.classify(0, discover(M, gen=9, seq=5, stations=stl, count=cnt), fill='00')
     # declared count exceeds what the frame holds; own address only behind the received length
     for declared in (1, 2, 5, 240, 241, 0x7FFF, 0xFFFF):
         for held in (0, 1, 3):
